@@ -23,7 +23,7 @@ import sys
 import time
 import warnings
 
-from common import Check, Driver, Infra, REPO, canon_json, log
+from common import Check, Driver, Infra, REPO, canon_json, leanchecker, log
 
 NEED_DRIVER = True
 
@@ -875,6 +875,12 @@ def run(chk):
     log(f"[c16] A4 {n4[0]} pairs ({n4[1]} equal) {time.time() - t:.1f}s"); t = time.time()
     stats = part_b(chk, drv, impl)
     log(f"[c16] B {stats.get('runs')} runs, {stats.get('rejected')} rejected {time.time() - t:.1f}s")
+    if chk.tier == "thorough" and chk.lean.build_ok:
+        ok, out = leanchecker(["SqlLineage.Props.C16", "SqlLineage.Proofs.Ident", "SqlLineage.Proofs.Names",
+                               "SqlLineage.Model.Names", "SqlLineage.Model.Ident"])
+        chk.coverage["leanchecker_ok"] = ok
+        if not ok:
+            chk.lean.bad_axioms.append(("leanchecker", [out[-300:]]))
     chk.coverage.update({
         "exhaustive": not chk.violations,
         "alphabet": ALPHABET,
